@@ -1,5 +1,6 @@
 import Pyx12Verif.Props.Doc
 import Pyx12Verif.Props.DocAccept
+import Pyx12Verif.Props.DocDelim
 #print axioms Pyx12Verif.Doc.doc_total
 #print axioms Pyx12Verif.Doc.doc_outcomes
 #print axioms Pyx12Verif.Doc.elemReports_codes
@@ -7,3 +8,5 @@ import Pyx12Verif.Props.DocAccept
 #print axioms Pyx12Verif.Doc.doc_accepts_of_runOK
 #print axioms Pyx12Verif.Doc.doc_accepts_generated
 #print axioms Pyx12Verif.Doc.doc_accepts_generated_text
+#print axioms Pyx12Verif.Doc.validateRead_congr
+#print axioms Pyx12Verif.Doc.doc_delimiter_independent_partial
